@@ -28,6 +28,13 @@ CONTEXTS = {
     'bracket-arg': ('\\outer[p ', ' q]'),
     'item': ('\\begin{itemize}\\item one ', ' two\\item three\\end{itemize}'),
     'after-item': ('\\begin{itemize}\\item', '\\end{itemize}'),
+    # inside the arguments of definition / fixed-signature commands
+    'newcommand-arg': ('\\newcommand{\\R}{', '}'),
+    'renewcommand-arg': ('\\renewcommand{\\R}[1]{a ', ' b}'),
+    'def-arg': ('\\def\\R{', '}'),
+    'section-arg': ('\\section{On ', ' spaces}'),
+    'textbf-arg': ('\\textbf{', '}'),
+    'env-arg': ('\\begin{theorem}[', ']t\\end{theorem}'),
 }
 PLAIN_CMDS = ['alpha', 'frac', 'sum', 'mathbb']
 ZERO = ['cup', 'cap', 'in', 'notin', 'infty']
@@ -172,7 +179,7 @@ class C12(Prop):
     id = 'C12'
     level = 'exploration'
     rule = ('cases: (i) one math region (4 delimiter pairs + 17 named math '
-            'environments) with a generated body in 8 contexts; (ii) every '
+            'environments) with a generated body in 14 contexts; (ii) every '
             'sizing prefix x every delimiter as the only command of a region; '
             '(iii) every zero-argument operator followed by a bracket; (iv) '
             'two directly adjacent regions for all ordered pairs of kinds. '
@@ -238,7 +245,11 @@ class C12(Prop):
             rng = random.Random('%d/%d/c12' % (seed, j))
             kind = KINDS[j % len(KINDS)]
             ctx = ctxs[(j // len(KINDS)) % len(ctxs)]
-            body, exp = gen_body(rng, in_bracket_ctx=(ctx == 'bracket-arg'))
+            if kind.startswith('env:') and ctx in ('newcommand-arg', 'renewcommand-arg'):
+                # \begin/\end inside a \newcommand-style definition do not
+                # open environments (C02): only the delimiter pairs there
+                kind = list(OPEN)[j % 4]
+            body, exp = gen_body(rng, in_bracket_ctx=(ctx in ('bracket-arg', 'env-arg')))
             yield k, {'w': 'body', 'kind': kind, 'ctx': ctx,
                       'body': fix_body(kind, body), 'expect': exp}
 
